@@ -1,5 +1,36 @@
 """C19 -- client subnet data is neither leaked upstream nor across audiences."""
+import re
+
 import serve_common as sc
+import vf
+
+ADDRS = ["98.51.100.10", "98.51.100.200", "98.51.101.5", "98.77.0.1", "10.1.2.3"]
+
+
+def ecs_family(ctx, thorough):
+    """Ecs.tla: forwarding clamp, scoped storage key, audience, TTL cap."""
+    for cfg, enabled, floor in (("floor16", True, 16), ("floor24", True, 24), ("off", False, 24)):
+        ctx.tlc("Ecs", "MC_Ecs.tla", "MC_Ecs_%s.cfg" % cfg, workers=4, timeout=900, heap="6g")
+        behs = ctx.tlc_behaviours("Ecs", "MC_Ecs.tla", "Sim_Ecs_%s.cfg" % cfg, num=250 if not thorough else 4000, depth=7)
+        out = []
+        for b in behs:
+            steps = []
+            for lab, st in b[1:]:
+                m = re.match(r"Query\((\d+),\s*(\d+),\s*(\d+)\)", lab)
+                if not m:
+                    raise vf.MachineryError("unexpected label " + lab)
+                steps.append({"c": int(m.group(1)), "sent": int(m.group(2)), "scope": int(m.group(3)),
+                              "expHit": st["last"]["kind"] == "hit"})
+            if steps:
+                out.append({"steps": steps})
+                ctx._distinct.add("ecs:%s:%r" % (cfg, steps))
+        inp = {"enabled": enabled, "fwdMax": 24, "floor": floor, "addrs": ADDRS, "behaviours": out}
+        res = ctx.go_driver("./c19", "TestEcsReplay", inp, name="ecs_" + cfg, timeout=900)
+        ctx.take_driver_result(res, "[Ecs %s] " % cfg)
+        ctx.cov["replay"]["ecs_" + cfg] = {"behaviours": len(out), "cases": res["cases"], "drift": res["drift"],
+                                           "drift_notes": res.get("drift_notes", [])[:5], "counters": res.get("counters", {})}
+        if res["cases"] == 0:
+            raise vf.MachineryError("ecs replay ran no cases")
 
 
 def run(ctx, replay):
@@ -12,3 +43,4 @@ def run(ctx, replay):
     sc.run_family_models(ctx, fams, thorough)
     sc.regression_model(ctx)
     sc.replay(ctx, "C19", fams, num=500 if not thorough else 6000, variants=2 if not thorough else 4)
+    ecs_family(ctx, thorough)
